@@ -2,7 +2,6 @@ use crate::define::Result;
 use crate::error::Error;
 use crate::value::Value;
 use once_cell::sync::OnceCell;
-use rust_decimal::prelude::FromPrimitive;
 use rust_decimal::Decimal;
 use std::collections::HashMap;
 use std::sync::{Arc, Mutex};
@@ -64,16 +63,8 @@ impl InfixOpManager {
                 SETTER,
                 RIGHT,
                 Arc::new(move |left, right| {
-                    let (mut a, b) = (left.decimal()?, right.decimal()?);
-                    match op {
-                        "+=" => a += b,
-                        "-=" => a -= b,
-                        "*=" => a *= b,
-                        "/=" => a /= b,
-                        "%=" => a %= b,
-                        _ => (),
-                    }
-                    Ok(Value::Number(a))
+                    let (a, b) = (left.decimal()?, right.decimal()?);
+                    Ok(Value::Number(decimal_calc(op, a, b)?))
                 }),
             );
         }
@@ -85,16 +76,8 @@ impl InfixOpManager {
                 SETTER,
                 RIGHT,
                 Arc::new(move |left, right| {
-                    let (mut a, b) = (left.integer()?, right.integer()?);
-                    match op {
-                        "<<=" => a <<= b,
-                        ">>=" => a >>= b,
-                        "&=" => a &= b,
-                        "^=" => a ^= b,
-                        "|=" => a |= b,
-                        _ => (),
-                    }
-                    Ok(Value::from(a))
+                    let (a, b) = (left.integer()?, right.integer()?);
+                    Ok(Value::from(integer_calc(op, a, b)?))
                 }),
             );
         }
@@ -163,16 +146,8 @@ impl InfixOpManager {
                 CALC,
                 LEFT,
                 Arc::new(move |left, right| {
-                    let (mut a, b) = (left.integer()?, right.integer()?);
-                    match op {
-                        "|" => a |= b,
-                        "^" => a ^= b,
-                        "&" => a &= b,
-                        "<<" => a <<= b,
-                        ">>" => a >>= b,
-                        _ => (),
-                    }
-                    Ok(Value::from(a))
+                    let (a, b) = (left.integer()?, right.integer()?);
+                    Ok(Value::from(integer_calc(op, a, b)?))
                 }),
             );
         }
@@ -184,16 +159,8 @@ impl InfixOpManager {
                 CALC,
                 LEFT,
                 Arc::new(move |left, right| {
-                    let (mut a, b) = (left.decimal()?, right.decimal()?);
-                    match op {
-                        "+" => a += b,
-                        "-" => a -= b,
-                        "*" => a *= b,
-                        "/" => a /= b,
-                        "%" => a %= b,
-                        _ => (),
-                    }
-                    Ok(Value::from(a))
+                    let (a, b) = (left.decimal()?, right.decimal()?);
+                    Ok(Value::from(decimal_calc(op, a, b)?))
                 }),
             );
         }
@@ -410,7 +377,7 @@ impl PostfixOpManager {
             "++",
             Arc::new(|param| {
                 let a = match param {
-                    Value::Number(a) => a + Decimal::from_i32(1).unwrap(),
+                    Value::Number(a) => decimal_calc("+", a, Decimal::ONE)?,
                     _ => return Err(Error::ShouldBeNumber()),
                 };
                 Ok(Value::Number(a))
@@ -421,7 +388,7 @@ impl PostfixOpManager {
             "--",
             Arc::new(|param| {
                 let a = match param {
-                    Value::Number(a) => a - Decimal::from_i32(1).unwrap(),
+                    Value::Number(a) => decimal_calc("-", a, Decimal::ONE)?,
                     _ => return Err(Error::ShouldBeNumber()),
                 };
                 Ok(Value::Number(a))
@@ -446,6 +413,48 @@ impl PostfixOpManager {
         let binding = self.store.lock().unwrap();
         binding.get(op).is_some()
     }
+}
+
+/// Decimal arithmetic shared by the calculation and compound-assignment
+/// operators: faults are reported as errors instead of panicking.
+pub(crate) fn decimal_calc(op: &str, a: Decimal, b: Decimal) -> Result<Decimal> {
+    let ans = match op {
+        "+" | "+=" => a.checked_add(b),
+        "-" | "-=" => a.checked_sub(b),
+        "*" | "*=" => a.checked_mul(b),
+        "/" | "/=" | "%" | "%=" => {
+            if b.is_zero() {
+                return Err(Error::DivideByZero);
+            }
+            if op == "/" || op == "/=" {
+                a.checked_div(b)
+            } else {
+                a.checked_rem(b)
+            }
+        }
+        _ => Some(a),
+    };
+    ans.ok_or(Error::ArithmeticOverflow)
+}
+
+/// 64-bit integer operations shared by the bit operators: a shift count
+/// outside 0..=63 is an error, not a panic or a masked shift.
+pub(crate) fn integer_calc(op: &str, a: i64, b: i64) -> Result<i64> {
+    let ans = match op {
+        "<<" | "<<=" => match u32::try_from(b) {
+            Ok(n) => a.checked_shl(n),
+            Err(_) => None,
+        },
+        ">>" | ">>=" => match u32::try_from(b) {
+            Ok(n) => a.checked_shr(n),
+            Err(_) => None,
+        },
+        "&" | "&=" => Some(a & b),
+        "^" | "^=" => Some(a ^ b),
+        "|" | "|=" => Some(a | b),
+        _ => Some(a),
+    };
+    ans.ok_or(Error::ArithmeticOverflow)
 }
 
 #[cfg(test)]
